@@ -12,7 +12,7 @@ for ID in "$@"; do
   D=seeded/$ID
   P=$(python3 -c "import json;print(json.load(open('$D/meta.json'))['property'])")
   PROPS="$P $(cat $D/also.txt 2>/dev/null)"
-  git -C $R checkout -q -- . ; git -C $R apply $D/patch.diff || { echo "$ID: patch does not apply"; continue; }
+  git -C $R checkout -q -- . ; git -C $R apply "$(pwd)/$D/patch.diff" || { echo "$ID: patch does not apply"; continue; }
   for q in $PROPS; do
     OUT=$(./check $q --tier quick 2>&1); RC=$?
     echo "SEED $ID vs $q: exit=$RC $(echo "$OUT" | grep '^VIOLATION' | head -1)"
